@@ -220,6 +220,64 @@ theorem follow_ring (nx ny : Nat) (regs : Nat → Nat) (ij : Nat) (hole : Bool) 
     rw [List.getLast?_reverse, hpts] at hq
     simp at hq; subst hq; exact hax
 
+/-! ### vertices are pixel corners of the raster -/
+
+/-- a pixel corner of an `nx × ny` raster -/
+def InBox (nx ny : Nat) (p : Int × Int) : Prop := 0 ≤ p.1 ∧ p.1 ≤ nx ∧ 0 ≤ p.2 ∧ p.2 ≤ ny
+
+theorem corner_inBox {R : Int → Int → Bool} {nx ny : Nat}
+    (hR : ∀ x y, R x y = true → 0 ≤ x ∧ x < nx ∧ 0 ≤ y ∧ y < ny) {s : FSt} (hs : Valid R s) :
+    InBox nx ny s.corner := by
+  obtain ⟨h0, h1, h2, h3⟩ := hR s.x s.y hs.1
+  obtain ⟨x, y, d⟩ := s
+  simp only at h0 h1 h2 h3
+  cases d <;> simp [FSt.corner, InBox] <;> omega
+
+theorem followLoop_inBox (R : Int → Int → Bool) (nx ny : Nat) (hole : Bool) (start : FSt)
+    (hR : ∀ x y, R x y = true → 0 ≤ x ∧ x < nx ∧ 0 ≤ y ∧ y < ny) :
+    ∀ (fuel : Nat) (cur : FSt) (prev : Option Dir) (tr res : Trace), Valid R cur →
+      (∀ p ∈ tr.pts, InBox nx ny p) → followLoop R nx ny hole start fuel cur prev tr = some res →
+      ∀ p ∈ res.pts, InBox nx ny p := by
+  intro fuel
+  induction fuel with
+  | zero => intro cur prev tr res _ _ h; simp [followLoop] at h
+  | succ fuel ih =>
+    intro cur prev tr res hv hall h
+    simp only [followLoop] at h
+    have hpts : ∀ p ∈ (if prev ≠ some cur.d then cur.corner :: tr.pts else tr.pts), InBox nx ny p := by
+      split
+      · intro p hp
+        rcases List.mem_cons.mp hp with e | e
+        · subst e; exact corner_inBox hR hv
+        · exact hall p e
+      · exact hall
+    split at h
+    · simp only [Option.some.injEq] at h; subst h; exact hpts
+    · exact ih _ _ _ res (step_valid R cur hv) hpts h
+
+/-- every vertex of a ring returned by `follow` is a pixel corner of the raster -/
+theorem follow_inBox (nx ny : Nat) (regs : Nat → Nat) (ij : Nat) (hole : Bool) (tr : Trace)
+    (hstart : Valid (inRegion nx ny regs (regs ij)) ⟨(ij % nx : Nat), (ij / nx : Nat), if hole then .W else .E⟩)
+    (h : follow nx ny regs ij hole = some tr) : ∀ p ∈ tr.pts, InBox nx ny p := by
+  have hR : ∀ x y, inRegion nx ny regs (regs ij) x y = true → 0 ≤ x ∧ x < nx ∧ 0 ≤ y ∧ y < ny := by
+    intro x y h
+    simp only [inRegion, Bool.and_eq_true, decide_eq_true_eq] at h
+    omega
+  unfold follow at h
+  simp only at h
+  split at h
+  · cases h
+  · rename_i res hres
+    simp only [Option.some.injEq] at h
+    subst h
+    have := followLoop_inBox _ nx ny hole _ hR _ _ none ⟨[], [], []⟩ res hstart (by intro p hp; simp at hp) hres
+    intro p hp
+    simp only [List.mem_append, List.mem_reverse] at hp
+    rcases hp with hp | hp
+    · exact this p hp
+    · exact this p (List.mem_reverse.mp (List.mem_of_mem_take hp))
+
+
 /-! ### where `_scan` starts a follow -/
 
 theorem flat_xy (nx X Y : Nat) : ((X : Int) + (Y : Int) * (nx : Int)).toNat = X + Y * nx := by
